@@ -391,7 +391,8 @@ int register_mod_src(m_mod_t *mod, m_src_types type, const void *src_data,
         return -EINVAL;
     }
     int ret = m_bst_insert(mod->srcs[type], src);
-    if (ret == 0) {
+    const bool stored = ret == 0;
+    if (stored) {
         /* If a src is registered at runtime, start receiving its events immediately */
         if (m_mod_is(mod, M_MOD_RUNNING)) {
             M_MOD_CTX(mod);
@@ -402,14 +403,22 @@ int register_mod_src(m_mod_t *mod, m_src_types type, const void *src_data,
                 ret = start_task(c, src);
             }
         }
-        return !ret ? 0 : -errno;
+        if (ret == 0) {
+            return 0;
+        }
+        ret = -errno;
     }
     /* Rejected: the descriptor and the userdata still belong to the caller (and to the source already registered on them) */
     if (!(flags & M_SRC_DUP)) {
         src->flags &= ~M_SRC_FD_AUTOCLOSE;
     }
     src->flags &= ~M_SRC_AUTOFREE;
-    m_mem_unref(src);
+    if (stored) {
+        /* It could not be polled: a rejected registration leaves no trace */
+        m_bst_remove(mod->srcs[type], src);
+    } else {
+        m_mem_unref(src);
+    }
     return ret;
 }
 
